@@ -247,7 +247,7 @@ class Report:
         for r in viol[:50]:
             path = os.path.join("replays", self.prop, safe_name(r["name"]) + ".json")
             with open(os.path.join(OUT, path), "w") as fh:
-                json.dump(dict(property=self.prop, obligation=r["name"], **{k: v for k, v in r.items() if k != "name"}),
+                json.dump(dict(property=self.prop, tier=self.tier, obligation=r["name"], **{k: v for k, v in r.items() if k != "name"}),
                           fh, indent=1, default=str)
             tail = "" if r.get("replayed") else " no-failing-input-found"
             lines.append(f"VIOLATION property={self.prop} replay={path}{tail}")
@@ -327,3 +327,21 @@ class Report:
             pass
         with open(path, "w") as fh:
             json.dump(ev, fh, indent=1, default=str)
+
+
+def generic_replay(mod, path):
+    """`./check <ID> --replay <file>`: print what the replay file recorded, then re-derive the same obligation / instance from the CURRENT tree by
+    re-running the check at the recorded tier and report whether it still fails.  Exit 1 = reproduced, 0 = not reproduced, 2 = obligation not found."""
+    d = json.load(open(path))
+    print(json.dumps({k: d.get(k) for k in ("property", "obligation", "status", "replay", "detail", "blame") if d.get(k) is not None}, indent=1, default=str)[:4000])
+    rep = mod.run(d.get("tier", "quick"))
+    hit = [r for r in rep.results if r["name"] == d["obligation"]]
+    if not hit:
+        print("NOT-FOUND: the obligation is not generated on this tree at this tier")
+        return 2
+    bad = [r for r in hit if r["status"] == REFUTED]
+    if bad:
+        print("REPRODUCED", bad[0]["name"], json.dumps(bad[0].get("replay"), default=str)[:1500])
+        return 1
+    print("NOT-REPRODUCED: the obligation is discharged on this tree")
+    return 0
